@@ -52,6 +52,9 @@ class StreamControl:
 
         self._streams[stream_id] = handler
 
+    def has_stream(self, stream_id: int) -> bool:
+        return stream_id in self._streams
+
     def handle_stream(self, frame: Frame) -> bool:
         stream_id = frame.stream_id
 
